@@ -111,6 +111,60 @@ func H_C12_long(k, _ int) {
 	vdigest(out[:40])
 }
 
+// H_C12_nul(k, _): labels of k units over {NUL, 'a', 'A', space} on both sides (a NUL
+// is read as U+FFFD): the use resolves exactly when the two labels are equal after
+// folding, collapsing and trimming. NULs are still padded zero bytes while reference
+// definitions are recognised, which is a separate code path from inline parsing.
+func H_C12_nul(k, _ int) {
+	mk := func() (norm string, text []byte) {
+		pending := false
+		var out []byte
+		for i := 0; i < k; i++ {
+			switch vconcrete(nondetInt(0, 3)) {
+			case 0:
+				text = append(text, 0)
+				if pending && len(out) > 0 {
+					out = append(out, ' ')
+				}
+				pending = false
+				out = append(out, 0xEF, 0xBF, 0xBD)
+			case 1, 2:
+				c := byte('a')
+				if len(text)%2 == 1 {
+					c = 'A'
+				}
+				text = append(text, c)
+				if pending && len(out) > 0 {
+					out = append(out, ' ')
+				}
+				pending = false
+				out = append(out, 'a')
+			default:
+				text = append(text, ' ')
+				pending = true
+			}
+		}
+		return string(out), text
+	}
+	n1, t1 := mk()
+	n2, t2 := mk()
+	var doc []byte
+	doc = append(doc, '[')
+	doc = append(doc, t1...)
+	doc = append(doc, "]\n\n["...)
+	doc = append(doc, t2...)
+	doc = append(doc, "]: /u\n"...)
+	blocks, _ := Parse(doc)
+	assume(len(blocks) >= 1)
+	resolved := hasLink(blocks[0].AsNode())
+	if n1 != "" && n1 == n2 {
+		check(resolved, "C12.nul-label.should-resolve")
+	} else {
+		check(!resolved, "C12.nul-label.should-not-resolve")
+	}
+	vdigest(dumpBlocks(blocks))
+}
+
 // H_C12_norm(k1, k2): "[" L1 "]" blank "[" L2 "]: /u"
 func H_C12_norm(k1, k2 int) {
 	u1, t1 := c12Label(k1)
